@@ -277,7 +277,7 @@ def twins(ctx):
         if customs:
             # interfaces of every custom mode next to each other, so that the order of sv::messages matters if it ever does
             for part, mode in zip(p0["parts"][1:], ["empty", "assoc", "fixed"]):
-                part["custom_mode"] = mode
+                spec.set_custom_mode(p0, part, mode)
         if i % 2:
             spec.gen_reply_table(rng, p0, n_names=rng.choice([2, 3]))
         orders = [{}]
